@@ -3,7 +3,7 @@ import os
 
 from engine import loader
 from engine.runner import Acc
-from engine.util import call, chunks, other_bits
+from engine.util import call, chunks, other_bits, vary_case
 from spec import crc as R
 from spec import frames as F
 from spec import identity as I
@@ -122,6 +122,8 @@ def w_ids(arg):
 
     def do(kind, p):
         acc.n += 1
+        if kind == "id":
+            p = (p[0], p[1], vary_case(p[2], acc.n))
         s = judge(cfg, kind, p)
         if s:
             acc.bad(s, {"cfg": cfg, "kind": kind, "p": list(p)})
